@@ -188,14 +188,13 @@ fn spawn_session(exe: &Path, o: &DriveOpts, idx: u64) -> std::io::Result<Child> 
         .stderr(Stdio::inherit());
     if idx >= crate::session::WARP_BASE && idx < crate::session::FLOOD_BASE {
         if let Some(lib) = &o.warp_lib {
-            // skew: up to ten years; jump: one hour per reading. The per-step watchdog is made
-            // ineffective (it reads the warped clock); a hang is caught by the driver's own limit.
+            // skew: up to ten years; jump: one hour per reading. The per-step watchdog reads the
+            // real clock with a raw system call (exec::recv_watch), so it keeps working.
             let w = crate::session::clock_of(idx);
             c.env("LD_PRELOAD", lib)
                 .env("DEXSIM_CLOCK_BASE_NS", w.base_ns.to_string())
                 .env("DEXSIM_CLOCK_STEP_NS", w.step_ns.to_string())
                 .env("DEXSIM_CLOCK_REPORT", o.out.join("sessions").join(format!("{idx}.clock.json")));
-            c.arg("--timeout").arg("315360000");
         }
         // ... and wear a host mask (argv[0], arguments and environment of a real host)
         crate::plan::apply_host_mask(&mut c, crate::session::host_of(idx));
@@ -337,7 +336,13 @@ pub fn drive(o: &DriveOpts) -> Result<DriveSummary, String> {
                 // a session that died without a log: find the culprit by re-running it with a
                 // progress trace and replaying the last request alone
                 match attribute_crash(&exe, o, idx, &pool) {
-                    Some(v) => raw.push((idx, v.0, v.1)),
+                    Some(v) => {
+                        // a hang met under the clock seam is reported against the ordinary session
+                        // with the same plan: its replay needs a watchdog that works
+                        let warp = idx >= crate::session::WARP_BASE && idx < crate::session::FLOOD_BASE;
+                        let at = if warp && v.0.kind == "hang" { idx - crate::session::WARP_BASE } else { idx };
+                        raw.push((at, v.0, v.1))
+                    }
                     None => sum.harness_errors.push(format!("session {idx} died ({why}) and the crash could not be attributed to a single request")),
                 }
                 continue;
@@ -689,7 +694,16 @@ fn attribute_crash(exe: &Path, o: &DriveOpts, idx: u64, pool: &Pool) -> Option<(
             Err(_) => return None,
         }
     }
+    // the re-run has the real clock and so a working per-step watchdog (a session under the clock
+    // seam has none): if it names a violation itself - a hang, typically - that is the attribution
+    let retry: Option<SessionResult> = std::fs::read_to_string(&out).ok().and_then(|t| serde_json::from_str(&t).ok());
     let _ = std::fs::remove_file(&out);
+    if let Some(res) = retry {
+        if let Some(v) = res.log.violations.first() {
+            let _ = std::fs::remove_file(&trace);
+            return Some((v.clone(), res.n_steps));
+        }
+    }
     let progress = std::fs::read_to_string(&trace).ok()?;
     let _ = std::fs::remove_file(&trace);
     let last: usize = progress.lines().last()?.trim().parse().ok()?;
